@@ -33,6 +33,11 @@ CHECKS = {
             "For the session, task and thread streams (thread with the sidecar present and deleted) every interleaving of the producer's lock/publish/record steps with one subscriber's subscribe / snapshot steps is executed with no preemption bound (two subscribers: preemption bound 2 in quick for sessions, all kinds in thorough); each execution runs the real run_session / TaskEmitter::emit / append_message against the real GET .../events handler, and the frames the subscriber's body yields must be exactly the stream's frames in the log, once, in order.",
             "Scheduling granularity = hook points; body polling order is not explored (the broadcast receiver buffers everything after subscribe; lag beyond the 16384-frame capacity is outside the quantifier); 3-4 frames per stream; replay determinism is asserted.",
             "DESIGN.md §3 C06"),
+    "C08": ("H-histories", "exploration",
+            "bounded exhaustive enumeration of thread histories x every message anchor through the real compile entry; path differential (cache variants, later appends) + reference of the documented contract",
+            "Every history of <=4 (quick) / <=5 (thorough) ops over {message, answered run, open run, run_ended for the oldest open run, side effects, cursor, checkpoints at last/first message} and macro threads crossing the 16-message limit and the tail windows (15/16/17/18/33 messages, 17 answered runs, 20 messages with three checkpoints, 40 x 20 KiB, thorough 18 x 600 KiB) is compiled for every message as anchor on the warm store, a restarted store, a store without the messages+runs cache family and a store without caches; from_seq, strategy, selected checkpoints and the user/assistant dialogue must agree across the four and equal the reference contract, and must not change when frames are appended after the cut.",
+            "Depth bound; replies come from stub runs ('ack: ...'); the compile-vs-appender schedule sub-check of the design is not built; stale caches are C04's subject.",
+            "DESIGN.md §3 C08"),
     "C09": ("H-histories", "exploration",
             "bounded exhaustive enumeration of thread histories x compaction commands x parameter domains on the real store against a reference planner evaluated on log replay",
             "Every history of <=4 (quick) / <=5 (thorough) ops over {message, answered run, side effects, manual checkpoints at last/first message and by stride, auto, schedule variants, inflight job}; in the reached state cut points for 7 strides x 6 limits must equal the reference planner (warm store and a copy without caches); auto(stride,max_new) on copies must create exactly the planned checkpoints inside one job_spawned/job_ended bracket with readable summaries of matching coverage, identical text on a byte-identical twin store (modulo ids minted by the run), and a repeat with nothing to do must be a zero-byte noop; schedule decisions (noop / dry_run / skipped_inflight / scheduled / completed) must match the reference.",
